@@ -1,11 +1,12 @@
 """C20 — format detection is total, consistent and recognises pycaption's own output."""
 import itertools, json
-from pcv import core, gen
+from pcv import core, gen, capio, textgen
 
 THEOREMS = ["PcVerif.Props.C20.order_pinned", "PcVerif.Props.C20.markers_pinned",
             "PcVerif.Props.C20.detectScc_total", "PcVerif.Props.C20.detectOne_total",
             "PcVerif.Props.C20.detect_total", "PcVerif.Props.C20.detect_empty_raises",
-            "PcVerif.Props.C20.detect_first_accepting", "PcVerif.Props.C20.detect_none_iff"]
+            "PcVerif.Props.C20.detect_first_accepting", "PcVerif.Props.C20.detect_none_iff",
+            "PcVerif.Props.C20.detect_own_srt", "PcVerif.Props.C20.detect_own_vtt", "PcVerif.Props.C20.detect_own_mdvd"]
 
 DOCUMENTED = ["dfxp", "microdvd", "webvtt", "sami", "srt", "scc"]
 SYMS = ["0", "1", "\n", "\r", "{", "}", "-", ">", "W", "<", "s", "t", "/", " ",
@@ -117,6 +118,7 @@ def explore(chk):
         out = b.run()
     else:
         out = None
+    own_through_model(chk)
     chk.exhaustive = True
     for i, (tag, s, name) in enumerate(cases):
         I = impl_detect(s)
@@ -151,6 +153,52 @@ def explore(chk):
                         raise ValueError("empty")
                 except Exception as e:
                     chk.property_failure({"input": s, "writer": name, "error": repr(e)}, "the detected reader cannot read the %s writer's own output" % name)
+
+
+def own_through_model(chk):
+    """the hypotheses' side of detect_own_srt / _vtt / _mdvd: captions made of text lines (adversarial characters, no
+    marker of another format), written by the implementation and by the writer models; the two documents must be the
+    same string (ties the writer models the theorems are about) and both sides must detect the writer's format"""
+    if not chk.driver_ok:
+        return
+    import pycaption
+    rng = chk.rng
+    W = {"srt": pycaption.SRTWriter, "webvtt": pycaption.WebVTTWriter, "microdvd": pycaption.MicroDVDWriter}
+    op = {"srt": "srt.write", "webvtt": "vtt.write", "microdvd": "mdvd.write"}
+    markers = ("</tt>", "<sami", "webvtt")
+    jobs = []
+    b = core.Batch()
+    for i in range(60 if chk.tier == "quick" else 600):
+        name = ("srt", "webvtt", "microdvd")[i % 3]
+        caps = []
+        t = rng.choice([0, 40000, 1000000, 3599000000, 86399000000])
+        for _ in range(rng.randint(1, 4)):
+            lines = []
+            for _ in range(rng.randint(1, 3)):
+                ln = textgen.adv_line(rng, ("|",) if name == "microdvd" else ()).strip()
+                # the marker hypothesis of the theorems (WebVTT needs none: `<` is escaped)
+                if name != "webvtt" and any(m in ln.lower() for m in markers):
+                    ln = "plain"
+                if not ln or any(ch in ln for ch in "\n\r\x0b\x0c\x1c\x1d\x1e\x85\u2028\u2029"):
+                    ln = "x"
+                lines.append(ln)
+            d = rng.choice([1000000, 1500000, 40000])
+            caps.append((t, t + d, capio.nodes_from_lines(lines)))
+            t += d + rng.choice([0, 1000, 2000000])
+        doc = W[name]().write(gen.build_set({"en-US": [(a, e, [n[1] for n in ns if n[0] == "T"]) for (a, e, ns) in caps]}))
+        jobs.append((name, caps, doc, b.add(op[name], capio.enc_langs([caps])), b.add("detect.format", core.enc(doc))))
+    out = b.run()
+    for name, caps, doc, o1, o2 in jobs:
+        chk.case(key=("own_model", name, doc), nontrivial=True)
+        chk.count("own_through_model_" + name)
+        case = {"writer": name, "captions": [[a, e, ns] for (a, e, ns) in caps], "impl_document": doc}
+        if core.dec(out[o1]) != doc:
+            chk.correspondence_failure(dict(case, model_document=core.dec(out[o1])), "%s writer (whole document): implementation and model differ" % name)
+        I = impl_detect(doc)
+        if out[o2] != I:
+            chk.correspondence_failure(dict(case, impl=I, model=out[o2]), "detect_format on own output: implementation and model differ")
+        if I != "ok:" + name:
+            chk.property_failure(dict(case, input=doc, impl=I, spec="ok:" + name), "own output of the %s writer is not detected as %s" % (name, name))
 
 
 def replay(path):
